@@ -426,3 +426,15 @@ func CompareImpl(a, b *ImplRun, ignoreLines bool) *Diff {
 	}
 	return nil
 }
+
+// ResourceAbort reports whether the model gave up for a resource reason
+// (steps, depth, string size): the model then cannot vouch that the program
+// terminates within reasonable bounds and the implementation is not run on it.
+func ResourceAbort(reason string) bool {
+	for _, k := range []string{"budget", "depth", "overflow", "too long", "too many"} {
+		if strings.Contains(reason, k) {
+			return true
+		}
+	}
+	return false
+}
